@@ -146,6 +146,52 @@ fn sample_member(rng: &mut Rng, exps: &[String], alpha_size: usize) -> Option<Ve
     Some(lines)
 }
 
+/// complete sweep of small shapes: <= 3 expectations (6 expressions x 4 quantifiers) x <= 4 lines over {a, b, ab},
+/// with and without final newline. Case k of 0..SWEEP_SIZE is decoded, not drawn.
+pub const SWEEP_EXPRS: &[(&str, &str)] = &[("a", ""), ("b", ""), ("ab", ""), ("a*", "glob"), ("?", "glob"), ("[ab]", "regex")];
+pub const SWEEP_LINES: &[&[u8]] = &[b"a", b"b", b"ab"];
+pub const SWEEP_SIZE: u64 = (1 + 24 + 24 * 24 + 24 * 24 * 24) * (1 + 3 + 9 + 27 + 81) * 2;
+
+pub fn sweep_case(mut k: u64) -> DiffCase {
+    let fin = k % 2 == 0;
+    k /= 2;
+    let line_shapes: u64 = 1 + 3 + 9 + 27 + 81;
+    let mut l = k % line_shapes;
+    k /= line_shapes;
+    let mut m = 0u32;
+    let mut block = 1u64;
+    while l >= block {
+        l -= block;
+        block *= 3;
+        m += 1;
+    }
+    let mut lines = vec![];
+    for _ in 0..m {
+        lines.push(SWEEP_LINES[(l % 3) as usize].to_vec());
+        l /= 3;
+    }
+    let mut n = 0u32;
+    let mut block = 1u64;
+    while k >= block {
+        k -= block;
+        block *= 24;
+        n += 1;
+    }
+    let mut exps = vec![];
+    for _ in 0..n {
+        let e = (k % 24) as usize;
+        k /= 24;
+        let (expr, kind) = SWEEP_EXPRS[e / 4];
+        exps.push(exp_line(expr, kind, QUANTS[e % 4]));
+    }
+    let fin = fin || lines.is_empty();
+    DiffCase {
+        exps,
+        out: join_lines(&lines, fin),
+        family: "sweep".into(),
+    }
+}
+
 pub fn gen_case(rng: &mut Rng, hostile_bytes: bool, thorough: bool) -> DiffCase {
     let family = rng.weighted(&[30, 30, 5, 8, 12, 15]);
     // a small expression pool and alphabet make overlapping match sets likely
